@@ -37,6 +37,8 @@ def gen_cases(seed, tier):
         cases.append(dict(kind="box", n_lo=lo, n_hi=min(lo + step - 1, 260),
                           stride=2 if tier == "thorough" else 40, cstride=1 if tier == "thorough" else 12,
                           offset=int(seed) % 40, devices=1))
+    # a sparse sample far outside the box (large state counts / batch sizes): arithmetic on all, layout on the smaller ones
+    cases.append(dict(kind="large", devices=1))
     cases.append(dict(kind="devcount", devices=1))
     cases.append(dict(kind="devcount", devices=4))
     return cases
@@ -63,6 +65,29 @@ def run_case(case):
                 return dict(status="violation", kind="device-count",
                             detail=f"pmap_device_count=None gave n_devices={bp.n_devices}, available {n_dev}")
         return dict(status="ok", n_obs=4, distinct=1 if n_dev > 1 else 0, cls=["devcount", n_dev])
+
+    if case["kind"] == "large":
+        import itertools
+
+        n_l = 0
+        for n, mb, d in itertools.product([261, 1000, 1023, 1024, 1025, 4096, 5000, 65537, 100003, 1000003],
+                                          [1, 63, 64, 65, 1000, 1024, 5000, 100000], range(1, 9)):
+            if n // max(mb, 1) > 200000:
+                continue
+            bp = target.call(f"BatchProcessor({n},{mb},{d})", BatchProcessor, n_states=n, state_dim=1, max_batch_size=mb,
+                             pmap_device_count=d)
+            D, B, bs, pad = bp.n_devices, bp.n_batches, bp.batch_size, bp.n_pad
+            if D != d or not (1 <= bs <= mb) or B < 1 or pad < 0 or D * B * bs != n + pad:
+                return dict(status="violation", kind="arithmetic",
+                            detail=f"n_states={n} max_batch_size={mb} devices={d}: devices={D} batches={B} batch_size={bs} padding={pad}")
+            if n <= 5000:
+                states = np.arange(1, n + 1, dtype=np.int32).reshape(n, 1)
+                flat = np.asarray(bp.prepare_batches(jnp.asarray(states))).reshape(-1)
+                out = np.asarray(bp.unbatch_results(jnp.asarray(np.arange(D * B * bs, dtype=np.float64).reshape(D, B, bs))))
+                if not (np.array_equal(flat[:n], states[:, 0]) and (flat[n:] == 0).all()) or not np.array_equal(out, np.arange(n)):
+                    return dict(status="violation", kind="layout", detail=f"n_states={n} max_batch_size={mb} devices={d}: layout / round trip wrong")
+            n_l += 1
+        return dict(status="ok", n_obs=0, distinct=0, large_triples=n_l, cls=["large", n_l])
 
     n_tri = n_layout = n_nontriv = 0
     k = kc = 0
@@ -141,6 +166,7 @@ def run_case(case):
 def aggregate(records, cases):
     ok = [r for r in records if r["status"] == "ok"]
     return dict(triples=sum(r.get("n_obs", 0) for r in ok if r["cls"][0] == "box"),
+                large_triples_outside_box=sum(r.get("large_triples", 0) for r in ok),
                 layouts_checked=sum(r.get("layouts", 0) for r in ok),
                 contract_evaluations=sum(r.get("invariant_evals", 0) for r in ok),
                 box="n_states 1..260 x max_batch_size {1..70,127,128,129,1024} x devices 1..8")
